@@ -10,6 +10,7 @@
  *               reference PES packets cut into 1..3 chunks -> pes_decaps
  *   --mode t3   ts_encaps driven like a mux -> reference TS parser ->
  *               ts_decaps -> pes_decaps
+ *   --mode t5   PID routing: upipe_ts_pid_filter and upipe_ts_split on every PID
  *   --mode t4   robustness: T1/T2 inputs with every header octet replaced /
  *               every truncation
  *   --tier quick|thorough  --shard i/n  --deadline s  --replay <case-id>
@@ -23,6 +24,8 @@
 #include "upipe-ts/upipe_ts_encaps.h"
 #include "upipe-ts/upipe_ts_mux.h"
 #include "upipe-ts/uref_ts_flow.h"
+#include "upipe-ts/upipe_ts_pid_filter.h"
+#include "upipe-ts/upipe_ts_split.h"
 
 #define POW33 (UINT64_C(1) << 33)
 
@@ -166,6 +169,7 @@ struct ochunk {
     bool has_dts_orig, has_pts_orig, has_dpd;
     uint64_t dts_orig, pts_orig, dpd;
 };
+#define NSK 3
 struct cx;
 struct osink {
     struct upipe upipe;
@@ -186,7 +190,7 @@ struct cx {
     struct px_fix fx;
     struct xumem xm;
     struct ubuf_mgr *in_mgr;
-    struct osink sk[2];
+    struct osink sk[NSK];
     int step;           /* current harness step (index of the input) */
     /* events */
     int n_ref;
@@ -352,8 +356,8 @@ static void cx_init(struct cx *cx)
     xu_init(&cx->xm);
     cx->in_mgr = ubuf_block_mem_mgr_alloc(0, 0, &cx->xm.mgr, 0, 0, 0, 0);
     assert(cx->in_mgr);
-    osink_init(cx, &cx->sk[0]);
-    osink_init(cx, &cx->sk[1]);
+    for (int i = 0; i < NSK; i++)
+        osink_init(cx, &cx->sk[i]);
     cx->s_cr = cx->s_dts = cx->s_pcr = UINT64_MAX;
 }
 
@@ -362,7 +366,7 @@ static const char *cx_fini(struct cx *cx, char *sig, size_t sign)
 {
     static char msg[300];
     const char *res = NULL;
-    for (int i = 0; i < 2; i++) {
+    for (int i = 0; i < NSK; i++) {
         struct osink *s = &cx->sk[i];
         unsigned refs = uatomic_load(&s->rc.refcount);
         if (res == NULL && (s->dead || refs != 1)) {
@@ -1636,9 +1640,9 @@ static void pdesc_build(const struct pdesc *d, struct rpes *h, uint8_t *pl, int 
     h->hdl = (h->ptsdts == 2 ? 5 : h->ptsdts == 3 ? 10 : 0) + h->stuffing;
 }
 
-static void pdesc_id(char *id, size_t n, const char *pfx, const struct pdesc *d, int c1, int c2, const struct mut *mu)
+static void pdesc_id(char *id, size_t n, const char *pfx, const struct pdesc *d, int c1, int c2, int c3, const struct mut *mu)
 {
-    size_t o = (size_t)snprintf(id, n, "%s:%02x.%d.%d.%d.%d.%d.%d/c%d.%d", pfx, d->sid, d->ptsdts, d->tsi, d->stuffing, d->align, d->pli, d->lenmode, c1, c2);
+    size_t o = (size_t)snprintf(id, n, "%s:%02x.%d.%d.%d.%d.%d.%d/c%d.%d.%d", pfx, d->sid, d->ptsdts, d->tsi, d->stuffing, d->align, d->pli, d->lenmode, c1, c2, c3);
     if (mu && mu->kind == 1)
         snprintf(id + o, n - o, "/m%d.%02x", mu->pos, mu->val);
     else if (mu && mu->kind == 3)
@@ -1650,10 +1654,10 @@ static void pdesc_id(char *id, size_t n, const char *pfx, const struct pdesc *d,
 /* second, fixed packet: video, no timestamp, 3 payload octets, bounded */
 static const uint8_t pes2[] = {0, 0, 1, 0xe0, 0, 6, 0x80, 0, 0, 0xa1, 0xa2, 0xa3};
 
-static void run_t2d(const struct pdesc *d, int c1, int c2, const struct mut *mu)
+static void run_t2d(const struct pdesc *d, int c1, int c2, int c3, const struct mut *mu)
 {
     char id[128];
-    pdesc_id(id, sizeof(id), mu && mu->kind ? "t4p" : "t2d", d, c1, c2, mu);
+    pdesc_id(id, sizeof(id), mu && mu->kind ? "t4p" : "t2d", d, c1, c2, c3, mu);
     v_crash_note(id);
     v_watchdog(20);
     struct vbuf b = {0};
@@ -1668,11 +1672,13 @@ static void run_t2d(const struct pdesc *d, int c1, int c2, const struct mut *mu)
         b.p[mu->pos] ^= (uint8_t)mu->val;
     else if (mu && mu->kind == 2 && mu->pos < n)
         n = mu->pos;
-    int cuts[2], nc = 0;
+    int cuts[3], nc = 0;
     if (c1 > 0 && c1 < n)
         cuts[nc++] = c1;
     if (c2 > c1 && c2 < n)
         cuts[nc++] = c2;
+    if (c3 > c2 && c2 > c1 && c3 < n)
+        cuts[nc++] = c3;
     struct pres r;
     if (n == 0) { /* nothing to send before the second packet */
         vbuf_free(&b);
@@ -1754,13 +1760,18 @@ static void t2d_cuts(const struct pdesc *d, int n, int pl_off)
 {
     (void)pl_off;
     if (take_case())
-        run_t2d(d, 0, 0, NULL);
+        run_t2d(d, 0, 0, 0, NULL);
     for (int c1 = 1; c1 < n && !g_expired; c1++) {
         if (take_case())
-            run_t2d(d, c1, 0, NULL);
+            run_t2d(d, c1, 0, 0, NULL);
         for (int c2 = c1 + 1; c2 < n; c2++) {
             if (take_case())
-                run_t2d(d, c1, c2, NULL);
+                run_t2d(d, c1, c2, 0, NULL);
+            /* four chunks: thorough, bounded video packets */
+            if (g_thorough && d->sid == 0xe0 && d->lenmode == 0)
+                for (int c3 = c2 + 1; c3 < n; c3++)
+                    if (take_case())
+                        run_t2d(d, c1, c2, c3, NULL);
         }
     }
 }
@@ -1802,7 +1813,7 @@ static void t4p_one(const struct pdesc *d, int n, int pl_off)
                 if (!take_case())
                     continue;
                 struct mut mu = {kinds[v], 0, pos, vals[v]};
-                run_t2d(d, c1, 0, &mu);
+                run_t2d(d, c1, 0, 0, &mu);
             }
     }
     for (int l = 1; l < n && !g_expired; l++)
@@ -1810,7 +1821,7 @@ static void t4p_one(const struct pdesc *d, int n, int pl_off)
             if (!take_case())
                 continue;
             struct mut mu = {2, 0, l, 0};
-            run_t2d(d, c1, 0, &mu);
+            run_t2d(d, c1, 0, 0, &mu);
         }
 }
 static void t4_pes(void) { t2d_each(t4p_one); }
@@ -1860,10 +1871,11 @@ static void t3_feed(struct cx *cx, struct upipe *enc, struct t3au *a)
     st_trans++;
 }
 
-static void run_t3(int s1, int s2, int di, int align, int pi, int flags, int feed)
+static void run_t3(int s1, int s2, int di, int align, int pi, int flags, int feed, int hi)
 {
     char id[96];
-    snprintf(id, sizeof(id), "t3:%d.%d.%d.%d.%d.%d.%d", s1, s2, di, align, pi, flags, feed);
+    snprintf(id, sizeof(id), "t3:%d.%d.%d.%d.%d.%d.%d.%d", s1, s2, di, align, pi, flags, feed, hi);
+    int hdrmin = t2_hdrs[hi];
     v_crash_note(id);
     v_watchdog(30);
     unsigned sid = t2_sids[di];
@@ -1884,11 +1896,17 @@ static void run_t3(int s1, int s2, int di, int align, int pi, int flags, int fee
         a->disc = (flags >> (2 * k + 1)) & 1;
     }
     bool ok = true;
+    /* with a configured minimum header the signature names the configuration class */
 #define XFAIL(sig_, ...)                                                       \
     do {                                                                       \
         if (ok) {                                                              \
+            char sg_[160];                                                     \
+            if (hdrmin)                                                        \
+                snprintf(sg_, sizeof(sg_), "%s/stream_id=%02x,min_header=%d", sig_, sid, hdrmin); \
+            else                                                               \
+                snprintf(sg_, sizeof(sg_), "%s", sig_);                        \
             ok = false;                                                        \
-            report(sig_, id, __VA_ARGS__);                                     \
+            report(sg_, id, __VA_ARGS__);                                      \
         }                                                                      \
     } while (0)
 
@@ -1904,6 +1922,8 @@ static void run_t3(int s1, int s2, int di, int align, int pi, int flags, int fee
     ubase_assert(uref_ts_flow_set_pes_id(fd, sid));
     if (align)
         ubase_assert(uref_ts_flow_set_pes_alignment(fd));
+    if (hdrmin)
+        ubase_assert(uref_ts_flow_set_pes_header(fd, hdrmin));
     ubase_assert(upipe_set_flow_def(enc, fd));
     uref_free(fd);
     if (pcr_int)
@@ -2120,10 +2140,16 @@ static void run_t3(int s1, int s2, int di, int align, int pi, int flags, int fee
                  h.ptsdts, h.pts, h.dts, h.align, gpos, gpos + plen);
             if (h.sid != sid)
                 XFAIL("t3:stream-id", "stream_id %02x, configured %02x", h.sid, sid);
+            {
+                int natural = !h.opt ? 6 : h.ptsdts == 3 ? 19 : h.ptsdts == 2 ? 14 : 9;
+                int want_hdr = h.opt && hdrmin > natural ? hdrmin : natural;
+                if (h.pl_off != want_hdr)
+                    XFAIL("t3:pes-header-size", "PES packet %d: header of %d octets, expected %d (configured minimum %d)", npes, h.pl_off, want_hdr, hdrmin);
+            }
             if (h.length == 0)
                 XFAIL("t3:pes-length", "PES_packet_length 0 for a %d-octet packet", bytes);
             if (gpos + plen > all) {
-                XFAIL("t3:too-much-payload", "PES packets carry more than the %d octets input", all);
+                XFAIL("t3:too-much-payload", "PES packet %d (stream_id %02x, %d octets, header %d) carries %d payload octets; with the previous packets that is more than the %d octets input", npes, h.sid, bytes, h.pl_off, plen, all);
                 break;
             }
             memcpy(got + gpos, p + h.pl_off, plen);
@@ -2236,13 +2262,173 @@ static void mode_t3(void)
                         for (int flags = 0; flags < (s2 != T3_NONE ? 16 : 4); flags++)
                             for (int feed = 0; feed < (s2 != T3_NONE ? 2 : 1); feed++) {
                                 if (take_case())
-                                    run_t3(s1, s2, di, align, pi, flags, feed);
+                                    run_t3(s1, s2, di, align, pi, flags, feed, 0);
+                                /* configured minimum PES header: single access units (thorough: all) */
+                                if ((s2 == T3_NONE || g_thorough) && take_case())
+                                    run_t3(s1, s2, di, align, pi, flags, feed, 1);
                             }
         }
 }
 
+
+/* ================================================================== */
+/* T5: PID routing (upipe_ts_pid_filter, upipe_ts_split): one packet of   */
+/* every PID 0..8191; each output receives exactly the packets of its PID, */
+/* unchanged and in order                                                 */
+/* ================================================================== */
+static void t5_packet(unsigned pid, unsigned cc, uint8_t out[188])
+{
+    struct rts h;
+    uint8_t pl[188];
+    memset(&h, 0, sizeof(h));
+    h.pid = pid;
+    h.pl = true;
+    h.cc = cc;
+    h.pusi = pid & 1;
+    h.prio = (pid >> 1) & 1;
+    for (int k = 0; k < 188; k++)
+        pl[k] = pat(pid + 1, k);
+    rts_build(&h, pl, out);
+}
+
+static const int t5_sets[][4] = {{-1, -1, -1, -1}, {0, -1, -1, -1}, {0x1abc, -1, -1, -1}, {8191, -1, -1, -1}, {0, 0x1abc, 8191, 7}, {1, 0x100, 0x1000, 0x1ffe}};
+#define T5_NSETS 6
+
+/* kind 0: pid_filter with set si (cut: 0 none, else two segments cut there); kind 1: the same but every PID of the set is
+ * added and removed again before the inputs, except the first; kind 2: ts_split with subpipes on sets[si][0..2] + a second
+ * subpipe on sets[si][0] */
+static void run_t5(int kind, int si, int cut)
+{
+    char id[64];
+    snprintf(id, sizeof(id), "t5:%d.%d.%d", kind, si, cut);
+    v_crash_note(id);
+    v_watchdog(60);
+    struct cx *cx = malloc(sizeof(*cx));
+    cx_init(cx);
+    struct upipe *pipe = NULL, *subs[4] = {NULL, NULL, NULL, NULL};
+    int want_pid[NSK][2]; /* PIDs each sink must receive (-1: none) */
+    for (int i = 0; i < NSK; i++)
+        want_pid[i][0] = want_pid[i][1] = -1;
+    bool enabled[8192];
+    memset(enabled, 0, sizeof(enabled));
+    struct uref *fd = uref_block_flow_alloc_def(cx->fx.uref_mgr, "mpegts.");
+    if (kind < 2) {
+        pipe = upipe_void_alloc(upipe_ts_pidf_mgr_alloc(), px_probe(&cx->fx));
+        assert(pipe);
+        ubase_assert(upipe_set_flow_def(pipe, fd));
+        ubase_assert(upipe_set_output(pipe, &cx->sk[0].upipe));
+        for (int k = 0; k < 4; k++)
+            if (t5_sets[si][k] >= 0) {
+                ubase_assert(upipe_ts_pidf_add_pid(pipe, (uint16_t)t5_sets[si][k]));
+                enabled[t5_sets[si][k]] = true;
+                if (kind == 1 && k > 0) {
+                    ubase_assert(upipe_ts_pidf_del_pid(pipe, (uint16_t)t5_sets[si][k]));
+                    enabled[t5_sets[si][k]] = false;
+                }
+            }
+    } else {
+        pipe = upipe_void_alloc(upipe_ts_split_mgr_alloc(), px_probe(&cx->fx));
+        assert(pipe);
+        ubase_assert(upipe_set_flow_def(pipe, fd));
+        for (int k = 0; k < 4; k++) {
+            int pid = t5_sets[si][k == 3 ? 0 : k];
+            if (pid < 0)
+                continue;
+            ubase_assert(uref_ts_flow_set_pid(fd, pid));
+            subs[k] = upipe_flow_alloc_sub(pipe, px_probe(&cx->fx), fd);
+            assert(subs[k]);
+            /* sub 3 (second one on the first PID) shares sink 0 with nobody: it feeds sink 2 together with sub 2 only if that is unused */
+            int sink = k == 3 ? (t5_sets[si][2] < 0 ? 2 : -1) : k;
+            if (sink >= 0) {
+                ubase_assert(upipe_set_output(subs[k], &cx->sk[sink].upipe));
+                want_pid[sink][want_pid[sink][0] < 0 ? 0 : 1] = pid;
+            }
+        }
+    }
+    uref_free(fd);
+    uint8_t (*pk)[188] = malloc(8192 * 188);
+    for (unsigned pid = 0; pid < 8192; pid++) {
+        t5_packet(pid, pid & 0xf, pk[pid]);
+        cx->step = (int)pid;
+        struct uref *u = mk_uref(cx, pk[pid], 188, cut, 0);
+        upipe_input(pipe, u, NULL);
+        st_trans++;
+    }
+    st_packets += 8192;
+    for (int k = 0; k < 4; k++)
+        upipe_release(subs[k]);
+    upipe_release(pipe);
+    st_exec++;
+    bool ok = true;
+    int nout = 0;
+    for (int i = 0; i < NSK && ok; i++) {
+        struct osink *s = &cx->sk[i];
+        nout += s->nch;
+        int k = 0;
+        for (unsigned pid = 0; pid < 8192 && ok; pid++) {
+            bool want = kind < 2 ? (i == 0 && enabled[pid]) : ((int)pid == want_pid[i][0] || (int)pid == want_pid[i][1]);
+            int times = want ? 1 : 0;
+            if (kind == 2 && want_pid[i][0] == want_pid[i][1] && want)
+                times = 2;
+            for (int t = 0; t < times && ok; t++) {
+                if (k >= s->nch || s->ch[k].during != (int)pid) {
+                    ok = false;
+                    report(kind < 2 ? "t5:pid_filter:packet-lost" : "t5:ts_split:packet-lost", id, "output %d did not receive the packet of PID %u", i, pid);
+                } else if (s->ch[k].size != 188 || memcmp(och_data(s, &s->ch[k]), pk[pid], 188)) {
+                    ok = false;
+                    report(kind < 2 ? "t5:pid_filter:packet-changed" : "t5:ts_split:packet-changed", id, "output %d: packet of PID %u arrived changed (%d octets)", i, pid,
+                           s->ch[k].size);
+                } else
+                    k++;
+            }
+        }
+        if (ok && k != s->nch) {
+            ok = false;
+            unsigned got = 0;
+            if (s->ch[k].size >= 3)
+                got = ((och_data(s, &s->ch[k])[1] & 0x1f) << 8) | och_data(s, &s->ch[k])[2];
+            report(kind < 2 ? "t5:pid_filter:foreign-packet" : "t5:ts_split:foreign-packet", id, "output %d received a packet of PID %u (input %d) that is not routed to it", i, got,
+                   s->ch[k].during);
+        }
+    }
+    st_outputs += nout;
+    if (nout)
+        st_nontrivial++;
+    VLOG("%d packets delivered", nout);
+    if (ok && cx->n_fatal) {
+        ok = false;
+        report("t5:fatal", id, "%d fatal event(s)", cx->n_fatal);
+    }
+    char fsig[64];
+    const char *fr = cx_fini(cx, fsig, sizeof(fsig));
+    if (fr != NULL && ok) {
+        char sg[96];
+        snprintf(sg, sizeof(sg), "t5:%s", fsig);
+        report(sg, id, "%s", fr);
+    }
+    free(pk);
+    free(cx);
+}
+
+static void mode_t5(void)
+{
+    static const int cuts[] = {0, 1, 2, 3, 4};
+    for (int kind = 0; kind < 3; kind++)
+        for (int si = 0; si < T5_NSETS; si++)
+            for (int c = 0; c < 5; c++)
+                if (take_case())
+                    run_t5(kind, si, cuts[c]);
+}
+
 static bool replay_other(const char *id)
 {
+    if (!strncmp(id, "t5:", 3)) {
+        int a, b, c;
+        if (sscanf(id, "t5:%d.%d.%d", &a, &b, &c) != 3 || a < 0 || a > 2 || b < 0 || b >= T5_NSETS || c < 0 || c > 187)
+            return false;
+        run_t5(a, b, c);
+        return true;
+    }
     if (!strncmp(id, "t2e:", 4)) {
         int a, b, c, d, e, f;
         if (sscanf(id, "t2e:%d.%d.%d.%d.%d.%d", &a, &b, &c, &d, &e, &f) != 6 || a < 0 || a >= T2_NSIZES || b < 0 || b >= T2_NTS || c < 0 || c >= T2_NSIDS || d < 0 ||
@@ -2252,17 +2438,17 @@ static bool replay_other(const char *id)
         return true;
     }
     if (!strncmp(id, "t3:", 3)) {
-        int a, b, c, d, e, f, g;
-        if (sscanf(id, "t3:%d.%d.%d.%d.%d.%d.%d", &a, &b, &c, &d, &e, &f, &g) != 7 || a < 0 || a >= T3_NSIZES || b < 0 || (b >= T3_NSIZES && b != T3_NONE) || c < 0 || c >= T2_NSIDS ||
+        int a, b, c, d, e, f, g, h = 0;
+        if (sscanf(id, "t3:%d.%d.%d.%d.%d.%d.%d.%d", &a, &b, &c, &d, &e, &f, &g, &h) < 7 || h < 0 || h >= T2_NHDRS || a < 0 || a >= T3_NSIZES || b < 0 || (b >= T3_NSIZES && b != T3_NONE) || c < 0 || c >= T2_NSIDS ||
             e < 0 || e >= T3_NPCR)
             return false;
-        run_t3(a, b, c, !!d, e, f & 15, !!g);
+        run_t3(a, b, c, !!d, e, f & 15, !!g, h);
         return true;
     }
     if (!strncmp(id, "t2d:", 4) || !strncmp(id, "t4p:", 4)) {
         struct pdesc d;
-        int c1, c2;
-        if (sscanf(id + 4, "%x.%d.%d.%d.%d.%d.%d/c%d.%d", &d.sid, &d.ptsdts, &d.tsi, &d.stuffing, &d.align, &d.pli, &d.lenmode, &c1, &c2) != 9)
+        int c1, c2, c3;
+        if (sscanf(id + 4, "%x.%d.%d.%d.%d.%d.%d/c%d.%d.%d", &d.sid, &d.ptsdts, &d.tsi, &d.stuffing, &d.align, &d.pli, &d.lenmode, &c1, &c2, &c3) != 10)
             return false;
         if (d.tsi < 0 || d.tsi > 3 || d.stuffing < 0 || d.stuffing > 2 || d.pli < 0 || d.pli > 2 || (d.ptsdts != 0 && d.ptsdts != 2 && d.ptsdts != 3))
             return false;
@@ -2280,7 +2466,7 @@ static bool replay_other(const char *id)
             else
                 return false;
         }
-        run_t2d(&d, c1, c2, mu.kind ? &mu : NULL);
+        run_t2d(&d, c1, c2, c3, mu.kind ? &mu : NULL);
         return true;
     }
     return false;
@@ -2329,6 +2515,8 @@ int main(int argc, char **argv)
         mode_t2();
     else if (!strcmp(mode, "t3"))
         mode_t3();
+    else if (!strcmp(mode, "t5"))
+        mode_t5();
     else if (!strcmp(mode, "t4")) {
         t4_ts();
         t4_pes();
